@@ -1217,7 +1217,12 @@ class LiteralData(Packet):
     @property
     def contents(self):
         if self.format == 't':
-            return self._contents.decode('latin-1')
+            # text of unspecified character set: UTF-8 (which is what PGPMessage.new stores), Latin-1 for text that is not
+            try:
+                return self._contents.decode('utf-8')
+
+            except UnicodeDecodeError:
+                return self._contents.decode('latin-1')
 
         if self.format == 'u':
             return self._contents.decode('utf-8')
